@@ -186,7 +186,20 @@ int __wrap_getentropy(void *buf, size_t len)
 		n->drawbytes_len[n->ndrawbytes++] = (uint8_t)len;
 	}
 	if (n->eburst_at >= 0 && (int64_t)idx >= n->eburst_at && (int64_t)idx < n->eburst_at + n->eburst_k) {
-		memset(buf, n->eburst_val, len);
+		if (n->eburst_val < 256) memset(buf, n->eburst_val, len);
+		else {
+			/* boundary values of rejection sampling: the SM2 group order n and n-1, as 64-bit little-endian limbs
+			 * (the layout a scalar is drawn in) or as a big-endian number; the pattern repeats over longer draws */
+			static const uint8_t n_be[32] = {
+				0xFF,0xFF,0xFF,0xFE,0xFF,0xFF,0xFF,0xFF,0xFF,0xFF,0xFF,0xFF,0xFF,0xFF,0xFF,0xFF,
+				0x72,0x03,0xDF,0x6B,0x21,0xC6,0x05,0x2B,0x53,0xBB,0xF4,0x09,0x39,0xD5,0x41,0x23 };
+			uint8_t pat[32];
+			int v = n->eburst_val - 256;
+			memcpy(pat, n_be, 32);
+			if (v & 1) pat[31] -= 1;                                   /* n-1 */
+			if (!(v & 2)) for (int b = 0; b < 16; b++) { uint8_t t = pat[b]; pat[b] = pat[31 - b]; pat[31 - b] = t; }   /* limbs */
+			for (size_t b = 0; b < len; b++) ((uint8_t *)buf)[b] = pat[b % 32];
+		}
 		n->eburst_fired++;
 		g_sim.probes[PR_EBURST]++;
 	}
